@@ -230,6 +230,39 @@ def direct_oracle(ctx, bufs, real_buffer, budget):
             ctx.case(("real", off, old, new, tail))
 
 
+def above_default_buffer(ctx):
+    """explicit BUFFER_SIZE values ABOVE the 2^20 default (callers may pass any size): growth, shrink and moves whose
+    steps exceed 2^20 bytes"""
+    U = _impl()
+    base = os.urandom(1 << 16)
+    for buf in ((1 << 20) + 1, 3 << 19):
+        with patched_buf(U, buf):
+            for off, old, new, tail in ((0, 0, buf, 1), (7, 1, buf + 1, buf), (0, 0, 2 * buf + 1, 5), (3, buf, 0, 2), (0, 2 * buf, 1, buf + 1),
+                                        (1234, 0, (1 << 20) + 1, 3766)):
+                n = off + old + tail
+                data = (base * (n // len(base) + 1))[:n]
+                ri, pi, di = run_impl(U, "resize_bytes", data, (old, new, off))
+                oracle_check(ctx, "resize_bytes", data, (old, new, off), buf, ri, di, "above-default-buffer")
+                ctx.oracle_cases += 1
+                ctx.count("oracle:buffer-above-2^20")
+                ctx.case(("above", buf, off, old, new, tail))
+            for size, newsize in ((5000, 5000 + buf), (0, 2 * buf + 1), (buf + 7, 3)):
+                data = (base * (size // len(base) + 1))[:size]
+                f = io.BytesIO(data)
+                try:
+                    U.resize_file(f, newsize - size)
+                    got = f.getvalue()
+                    ok = len(got) == newsize and got[:min(size, newsize)] == data[:min(size, newsize)] and not got[size:].strip(b"\x00")
+                except Exception as e:
+                    ok = False
+                ctx.oracle_cases += 1
+                ctx.count("oracle:buffer-above-2^20")
+                ctx.case(("above-resize_file", buf, size, newsize))
+                if not ok:
+                    ctx.violation("oracle", "resize_file: wrong length/content with BUFFER_SIZE above the default",
+                                  {"runner": "c11.above", "fn": "resize_file", "buf": buf, "size": size, "diff": newsize - size, "data": "len:%d" % size})
+
+
 def vm_crosscheck(ctx):
     """the extracted binary must agree with the kernel's own evaluator on the same cases"""
     cases, keys = [], []
@@ -265,9 +298,11 @@ def run(ctx):
     if ctx.thorough:
         correspondence(ctx, 9, [1, 2, 3, 4, 5, 6, 7, 8, 9, 10])
         direct_oracle(ctx, [4, 64, 1000], 60, 400)
+        above_default_buffer(ctx)
     else:
         correspondence(ctx, 7, [1, 2, 3, 5, 8])
         direct_oracle(ctx, [4, 64], 6, 150)
+        above_default_buffer(ctx)
     vm_crosscheck(ctx)
 
 
@@ -288,6 +323,7 @@ def search(ctx, broken):
                         if len(ctx.violations) > before + 3:
                             return
     direct_oracle(ctx, [4, 16, 64, 1000, 4096], 40, 600)
+    above_default_buffer(ctx)
     ctx.notes["search"] = "exhaustive len<=10 x BUF in {1,2,3,4,7} and lattices (incl. real buffer) found %d failing inputs" % (len(ctx.violations) - before)
 
 
